@@ -11,7 +11,7 @@ for name in names:
     meta = json.load(open(os.path.join(V, 'seeded', name, 'meta.json')))
     wt = '/tmp/seedrun_' + name
     subprocess.run('git -C /repo worktree remove --force %s' % wt, shell=True, stderr=subprocess.DEVNULL)
-    subprocess.run('git -C /repo worktree add -f %s HEAD' % wt, shell=True, stdout=subprocess.DEVNULL, stderr=subprocess.DEVNULL)
+    subprocess.run('git -C /repo worktree add -f %s %s' % (wt, meta.get('base', 'HEAD')), shell=True, stdout=subprocess.DEVNULL, stderr=subprocess.DEVNULL)
     try:
         r = subprocess.run('git apply %s' % os.path.join(V, 'seeded', name, 'patch.diff'), shell=True, cwd=wt)
         assert r.returncode == 0
